@@ -22,22 +22,23 @@ const modPath = "github.com/xinchentechnote/fin-protoc"
 
 // World is the resolved program every rule looks at.
 type World struct {
-	Repo     string
-	Fset     *token.FileSet
-	Pkgs     []*packages.Package // the repo's own packages
-	ByPath   map[string]*packages.Package
-	Prog     *ssa.Program
-	SSA      map[string]*ssa.Package
-	Model    *ssa.Package
-	Parser   *ssa.Package
-	Grammar  *ssa.Package
-	Cmd      *ssa.Package
-	G4       *Grammar
-	cg       *callgraph.Graph
-	useVTA   bool
-	allFuncs map[*ssa.Function]bool
+	Repo      string
+	Fset      *token.FileSet
+	Pkgs      []*packages.Package // the repo's own packages
+	ByPath    map[string]*packages.Package
+	Prog      *ssa.Program
+	SSA       map[string]*ssa.Package
+	Model     *ssa.Package
+	Parser    *ssa.Package
+	Grammar   *ssa.Package
+	Cmd       *ssa.Package
+	G4        *Grammar
+	cg        *callgraph.Graph
+	useVTA    bool
+	allFuncs  map[*ssa.Function]bool
 	addrTaken map[*ssa.Function]bool
-	srcFuncs []*ssa.Function // functions with source in repo packages (non-generated: not internal/grammar)
+	flagBind  map[*ssa.Global]map[string]bool
+	srcFuncs  []*ssa.Function // functions with source in repo packages (non-generated: not internal/grammar)
 }
 
 func loadWorld(repo string, useVTA bool) (*World, error) {
